@@ -55,7 +55,64 @@ def fold(t: Term):
         return ('const', eq if t[1] in ('==', 'is') else not eq)
     if isinstance(t, tuple) and t and t[0] == 'not' and isinstance(t[1], tuple) and t[1][:1] == ('const',) and isinstance(t[1][1], bool):
         return ('const', not t[1][1])
+    if isinstance(t, tuple) and t and t[0] == 'not' and isinstance(t[1], tuple) and t[1][:1] == ('has',):
+        inner = fold(t[1])
+        if inner[:1] == ('const',):
+            return ('const', not inner[1])
+    if isinstance(t, tuple) and len(t) == 3 and t[0] == 'has' and isinstance(t[2], tuple) and t[2][:1] == ('const',):
+        elems = const_elements(t[1])
+        if elems is not None and all(isinstance(x, tuple) and x[:1] == ('const',) for x in elems):
+            return ('const', any(x[1] == t[2][1] for x in elems))
     return t
+
+
+def relookup(t: Term) -> Term:
+    """table lookups whose key became a constant once a call result was split into its paths"""
+    if isinstance(t, tuple):
+        t = tuple(relookup(x) if isinstance(x, (tuple, dict)) else x for x in t)
+        if len(t) == 3 and t[0] == 'get' and isinstance(t[1], tuple) and t[1][:1] == ('dict',) and isinstance(t[2], tuple) and t[2][:1] == ('const',):
+            k = canon_key(t[2][1])
+            if k in t[1][1]:
+                return t[1][1][k]
+    elif isinstance(t, dict):
+        return {k: relookup(v) if isinstance(v, (tuple, dict)) else v for k, v in t.items()}
+    return t
+
+
+def split_cases(t: Term):
+    """A term that contains the result of a multi-path call (`('cases', ((conds, value), …))`) stands for one term per path: returns
+    [(extra conditions, term)] with every `cases` node replaced by the value of one of its paths (all combinations)."""
+    def find(x):
+        if isinstance(x, tuple):
+            if x[:1] == ('cases',):
+                return x
+            for y in x:
+                r = find(y)
+                if r is not None:
+                    return r
+        elif isinstance(x, dict):
+            for y in x.values():
+                r = find(y)
+                if r is not None:
+                    return r
+        return None
+
+    def subst(x, node, val):
+        if x is node:
+            return val
+        if isinstance(x, tuple):
+            return tuple(subst(y, node, val) for y in x)
+        if isinstance(x, dict):
+            return {k: subst(v, node, val) for k, v in x.items()}
+        return x
+    node = find(t)
+    if node is None:
+        return [([], t)]
+    out = []
+    for conds, val in node[1]:
+        for more, t2 in split_cases(subst(t, node, val)):
+            out.append((list(conds) + more, t2))
+    return out
 
 
 def const_elements(t: Term):
@@ -67,6 +124,86 @@ def const_elements(t: Term):
     if isinstance(t, tuple) and t and t[0] in ('set', 'seq') and isinstance(t[1], tuple) and all(is_const(x) for x in t[1]):
         return list(t[1])
     return None
+
+
+def _neg_atom(t):
+    return t[1] if isinstance(t, tuple) and t and t[0] == 'not' else ('not', t)
+
+
+def _clauses(c, v):
+    """CNF clauses (lists of (atom, truth)) of the assertion `c is v`; atoms are comparison / membership terms, `>=` is read as the
+    negation of the reversed `>`."""
+    if isinstance(c, tuple) and c:
+        if c[0] == 'not':
+            return _clauses(c[1], not v)
+        if c[0] == 'const' and isinstance(c[1], bool):
+            return [] if c[1] == v else [[]]
+        if c[0] == 'cmp' and c[1] == '>=':
+            return _clauses(('cmp', '>', c[3], c[2]), not v)
+        if c[0] == 'cmp' and c[1] == '!=':
+            return _clauses(('cmp', '==', c[2], c[3]), not v)
+        if (c[0] == 'and' and v) or (c[0] == 'or' and not v):
+            out = []
+            for x in c[1:]:
+                out += _clauses(x, v)
+            return out
+        if (c[0] == 'or' and v) or (c[0] == 'and' and not v):
+            # one clause if every disjunct is a literal; otherwise keep the compound as an opaque atom
+            lits = []
+            for x in c[1:]:
+                sub = _clauses(x, v)
+                if len(sub) == 1 and len(sub[0]) == 1:
+                    lits.append(sub[0][0])
+                elif not sub:
+                    return []           # a disjunct that is trivially true
+                else:
+                    return [[(c, v)]]
+            return [lits]
+    return [[(c, v)]]
+
+
+def simplify_conds(conds):
+    """Unit propagation over the path condition: the literals that must hold (sorted) plus what is left of the compound conditions,
+    or None when the condition is contradictory (an infeasible path of an if/elif chain whose tests overlap)."""
+    clauses = []
+    for c, v in conds:
+        clauses += _clauses(c, v)
+    units = {}
+    changed = True
+    while changed:
+        changed = False
+        rest = []
+        for cl in clauses:
+            if not cl:
+                return None
+            if len(cl) == 1:
+                a, t = cl[0]
+                if a in units and units[a] != t:
+                    return None
+                if a not in units:
+                    units[a] = t
+                    changed = True
+                continue
+            new = []
+            sat = False
+            for a, t in cl:
+                if a in units:
+                    if units[a] == t:
+                        sat = True
+                        break
+                    continue
+                new.append((a, t))
+            if sat:
+                changed = changed or True
+                continue
+            if len(new) != len(cl):
+                changed = True
+            rest.append(new)
+        clauses = rest
+    out = sorted(units.items(), key=repr)
+    for cl in sorted(clauses, key=repr):
+        out.append((('or',) + tuple(a if t else ('not', a) for a, t in cl), True))
+    return out
 
 
 class Path:
@@ -107,6 +244,14 @@ class PyNorm:
         for p in paths:
             if not p.returned:
                 p.ret = const(None)
+        out_ = []
+        for p_ in paths:
+            sc = simplify_conds(p_.conds)
+            if sc is None:
+                continue                 # infeasible combination of branch outcomes
+            p_.conds = sc
+            out_.append(p_)
+        paths = out_
         return paths
 
     def _block(self, stmts, paths: List[Path]) -> List[Path]:
@@ -130,9 +275,12 @@ class PyNorm:
             out = []
             for p in paths:
                 v = self.term(s.value, p.env)
-                for t in targets:
-                    self._store(t, v, p)
-                out.append(p)
+                for conds, v2 in split_cases(v):
+                    q = p.fork() if conds else p
+                    q.conds += conds
+                    for t in targets:
+                        self._store(t, self._relookup(v2), q)
+                    out.append(q)
             return out
         if isinstance(s, ast.For) and not s.orelse and (isinstance(s.target, ast.Name) or
                                                         (isinstance(s.target, ast.Tuple) and all(isinstance(e, ast.Name) for e in s.target.elts))):
@@ -168,25 +316,37 @@ class PyNorm:
             return paths
         if isinstance(s, ast.If):
             out = []
-            for p in paths:
-                c = fold(self.term(s.test, p.env))
-                if isinstance(c, tuple) and c[:1] == ('const',) and isinstance(c[1], bool):
-                    out += self._block(s.body if c[1] else s.orelse, [p]) if (s.body if c[1] else s.orelse) else [p]
-                    continue
-                pt, pf = p.fork(), p.fork()
-                pt.conds.append((c, True))
-                pf.conds.append((c, False))
-                out += self._block(s.body, [pt])
-                out += self._block(s.orelse, [pf]) if s.orelse else [pf]
+            for p0 in paths:
+                for conds, c in split_cases(self.term(s.test, p0.env)):
+                    p = p0.fork() if conds else p0
+                    p.conds += conds
+                    c = fold(self._relookup(c))
+                    if isinstance(c, tuple) and c[:1] == ('const',) and isinstance(c[1], bool):
+                        out += self._block(s.body if c[1] else s.orelse, [p]) if (s.body if c[1] else s.orelse) else [p]
+                        continue
+                    pt, pf = p.fork(), p.fork()
+                    pt.conds.append((c, True))
+                    pf.conds.append((c, False))
+                    out += self._block(s.body, [pt])
+                    out += self._block(s.orelse, [pf]) if s.orelse else [pf]
             return out
         if isinstance(s, ast.Return):
+            out = []
             for p in paths:
-                p.ret = self.term(s.value, p.env) if s.value is not None else const(None)
-                p.returned = True
-            return paths
+                v = self.term(s.value, p.env) if s.value is not None else const(None)
+                for conds, v2 in split_cases(v):
+                    q = p.fork() if conds else p
+                    q.conds += conds
+                    q.ret = self._relookup(v2)
+                    q.returned = True
+                    out.append(q)
+            return out
         if isinstance(s, ast.Pass):
             return paths
         raise AnalysisError(f'norm: unsupported statement {type(s).__name__} in {self.fi.short}: {src(s)[:60]!r}')
+
+    def _relookup(self, t: Term) -> Term:
+        return relookup(t)
 
     def _store(self, target, v: Term, p: Path) -> None:
         if isinstance(target, ast.Name):
@@ -418,6 +578,14 @@ class JsNorm:
         for p in paths:
             if not p.returned:
                 p.ret = const(None)
+        out_ = []
+        for p_ in paths:
+            sc = simplify_conds(p_.conds)
+            if sc is None:
+                continue                 # infeasible combination of branch outcomes
+            p_.conds = sc
+            out_.append(p_)
+        paths = out_
         return paths
 
     def _block(self, stmts, paths):
@@ -472,15 +640,25 @@ class JsNorm:
             _k, _kw, target, init, _l = s
             if not isinstance(target, str):
                 raise AnalysisError(f'js norm: destructuring in {self.name}')
+            out = []
             for p in paths:
-                p.env[target] = self.term(init, p.env) if init is not None else const(None)
-            return paths
+                for conds, v in split_cases(self.term(init, p.env) if init is not None else const(None)):
+                    q = p.fork() if conds else p
+                    q.conds += conds
+                    q.env[target] = relookup(v)
+                    out.append(q)
+            return out
         if k == 'expr':
             e = s[1]
             if e[0] == 'assign' and e[1] == '=':
+                out = []
                 for p in paths:
-                    self._store(e[2], self.term(e[3], p.env), p)
-                return paths
+                    for conds, v in split_cases(self.term(e[3], p.env)):
+                        q = p.fork() if conds else p
+                        q.conds += conds
+                        self._store(e[2], relookup(v), q)
+                        out.append(q)
+                return out
             raise AnalysisError(f'js norm: unsupported expression statement in {self.name} line {s[2]}')
         if k == 'break':
             for p in paths:
@@ -509,23 +687,31 @@ class JsNorm:
             return out
         if k == 'if':
             out = []
-            for p in paths:
-                c = fold(self.term(s[1], p.env))
-                if isinstance(c, tuple) and c[:1] == ('const',) and isinstance(c[1], bool):
-                    br = s[2] if c[1] else s[3]
-                    out += self._stmt(br, [p]) if br is not None else [p]
-                    continue
-                pt, pf = p.fork(), p.fork()
-                pt.conds.append((c, True))
-                pf.conds.append((c, False))
-                out += self._stmt(s[2], [pt])
-                out += self._stmt(s[3], [pf]) if s[3] is not None else [pf]
+            for p0 in paths:
+                for conds, c in split_cases(self.term(s[1], p0.env)):
+                    p = p0.fork() if conds else p0
+                    p.conds += conds
+                    c = fold(relookup(c))
+                    if isinstance(c, tuple) and c[:1] == ('const',) and isinstance(c[1], bool):
+                        br = s[2] if c[1] else s[3]
+                        out += self._stmt(br, [p]) if br is not None else [p]
+                        continue
+                    pt, pf = p.fork(), p.fork()
+                    pt.conds.append((c, True))
+                    pf.conds.append((c, False))
+                    out += self._stmt(s[2], [pt])
+                    out += self._stmt(s[3], [pf]) if s[3] is not None else [pf]
             return out
         if k == 'return':
+            out = []
             for p in paths:
-                p.ret = self.term(s[1], p.env) if s[1] is not None else const(None)
-                p.returned = True
-            return paths
+                for conds, v in split_cases(self.term(s[1], p.env) if s[1] is not None else const(None)):
+                    q = p.fork() if conds else p
+                    q.conds += conds
+                    q.ret = fold(relookup(v))
+                    q.returned = True
+                    out.append(q)
+            return out
         raise AnalysisError(f'js norm: unsupported statement {k} in {self.name}')
 
     def _store(self, target, v, p):
@@ -675,3 +861,72 @@ class JsNorm:
                 return ('cases', tuple((tuple(p.conds), freeze(p.ret)) for p in paths))
             return ('call', f[1]) + tuple(targs)
         raise AnalysisError('js norm: unsupported callee')
+
+
+def equivalent_paths(pa, pb, max_atoms: int = 14) -> bool:
+    """Are two decision trees (lists of (conditions, result) as given by Path.summary()) the same function of their atomic conditions?
+    Decided by truth table over the atoms that occur (membership tests `c in X`, comparisons, opaque terms); `intersects(X, {a, b})` is
+    read as `a in X or b in X`.  Sound for equivalence: True only if every assignment of the atoms selects equal results on both sides."""
+    import itertools
+
+    def const_set(t):
+        els = const_elements(t)
+        if els is not None and all(isinstance(x, tuple) and x[:1] == ('const',) for x in els):
+            return els
+        return None
+
+    def as_members(t):
+        """intersects(X, S) with S constant -> [has(X, s) …]; else None"""
+        if isinstance(t, tuple) and len(t) == 3 and t[0] == 'intersects':
+            for x, s_ in ((t[1], t[2]), (t[2], t[1])):
+                cs = const_set(s_)
+                if cs is not None and const_set(x) is None:
+                    return [('has', x, c) for c in cs]
+        return None
+    atoms = {}
+
+    def note(t):
+        t = freeze(t)
+        ms = as_members(t)
+        if ms is not None:
+            for m in ms:
+                atoms.setdefault(repr(freeze(m)), None)
+        elif isinstance(t, tuple) and t[:1] == ('not',):
+            note(t[1])
+        else:
+            atoms.setdefault(repr(t), None)
+
+    def ev(t, asg):
+        t = freeze(t)
+        ms = as_members(t)
+        if ms is not None:
+            return any(asg[repr(freeze(m))] for m in ms)
+        if isinstance(t, tuple) and t[:1] == ('not',):
+            return not ev(t[1], asg)
+        return asg[repr(t)]
+
+    def is_bool_term(t):
+        t = freeze(t)
+        return as_members(t) is not None or (isinstance(t, tuple) and t[:1] == ('has',)) or (isinstance(t, tuple) and t[:1] == ('not',) and is_bool_term(t[1]))
+    for paths in (pa, pb):
+        for conds, ret in paths:
+            for c, _v in conds:
+                note(c)
+            if is_bool_term(ret):
+                note(ret)
+    if len(atoms) > max_atoms:
+        return False
+    names = sorted(atoms)
+
+    def result(paths, asg):
+        for conds, ret in paths:
+            if all(ev(c, asg) == v for c, v in conds):
+                if is_bool_term(ret):
+                    return repr(('const', bool(ev(ret, asg))))
+                return repr(freeze(ret))
+        return 'no-path'
+    for bits in itertools.product((False, True), repeat=len(names)):
+        asg = dict(zip(names, bits))
+        if result(pa, asg) != result(pb, asg):
+            return False
+    return True
